@@ -22,7 +22,7 @@ SUBJECT = {
  "C20:process-abort:grb": "the binary loader allocates by the data present",
  "C20:over-allocation:grb": "the binary loader allocates by the data present",
  "Salience-value-out-of-range": "an out-of-range salience is a build error",
- "C17:": None,
+ "C17:rejected-text-damages": "an incomplete rule is not added",
 }
 log = subprocess.run("git -C /repo log --format='%h %s'", shell=True, capture_output=True, text=True).stdout.splitlines()
 def find(subj):
